@@ -2,6 +2,7 @@ package keeper
 
 import (
 	saodid "github.com/SaoNetwork/sao-did"
+	"github.com/SaoNetwork/sao-did/parser"
 	sid "github.com/SaoNetwork/sao-did/sid"
 	saodidtypes "github.com/SaoNetwork/sao-did/types"
 	saodidutil "github.com/SaoNetwork/sao-did/util"
@@ -22,6 +23,26 @@ func (k Keeper) verifySignature(ctx sdk.Context, owner string, proposal Proposal
 	}
 
 	var querySidDocument = func(versionId string) (*sid.SidDocument, error) {
+		// the document must be one of the versions of the did that is said to have signed:
+		// otherwise any sid document on chain (somebody else's) would do as the owner's keys
+		ownerDid, err := parser.Parse(owner)
+		if err != nil {
+			return nil, err
+		}
+		versions, found := k.did.GetSidDocumentVersion(ctx, ownerDid.ID)
+		if !found {
+			return nil, nil
+		}
+		isVersion := false
+		for _, v := range versions.VersionList {
+			if v == versionId {
+				isVersion = true
+				break
+			}
+		}
+		if !isVersion {
+			return nil, nil
+		}
 		doc, found := k.did.GetSidDocument(ctx, versionId)
 		if found {
 			var keys = make([]*sid.PubKey, 0)
